@@ -175,8 +175,20 @@ def search(prop, seed, failures):
     env["CARGO_NET_OFFLINE"] = "true"
     try:
         if REPO != "/repo":
-            return {"input": None, "note": "searcher is bound to /repo"}
-        shutil.copy(os.path.join(REPO, "Cargo.lock"), os.path.join(rdir, "Cargo.lock"))
+            # the replay crate depends on /repo by path: build a patched copy against the alternative tree
+            alt = os.path.join(VERIF, "build", "replay-alt")
+            shutil.rmtree(alt, ignore_errors=True)
+            shutil.copytree(rdir, alt)
+            m = open(os.path.join(alt, "Cargo.toml")).read().replace('path = "/repo"', 'path = "%s"' % REPO)
+            open(os.path.join(alt, "Cargo.toml"), "w").write(m)
+            c = open(os.path.join(alt, ".cargo", "config.toml")).read().replace("/verif/build/replay-target", os.path.join(VERIF, "build", "replay-alt-target"))
+            open(os.path.join(alt, ".cargo", "config.toml"), "w").write(c)
+            rdir = alt
+            exe = os.path.join(VERIF, "build", "replay-alt-target", "release", "search")
+        try:
+            shutil.copy(os.path.join(REPO, "Cargo.lock"), os.path.join(rdir, "Cargo.lock"))
+        except Exception:
+            pass
         b = subprocess.run(["cargo", "build", "--release", "--bin", "search"], cwd=rdir, env=env, capture_output=True, text=True, timeout=600)
         if b.returncode != 0:
             return {"input": None, "note": "searcher did not build: " + b.stderr[-800:]}
